@@ -10,8 +10,8 @@
    canonical (onset, pitch, duration) order, row = (onset, pitch, duration);
    mftc c0 c ct = morph of chroma c if the tonic had chroma ct and the first note chroma c0. *)
 From PV Require Import Lib.Base Gen.C17_PS13 Gen.C17_KeyTab Gen.C17_MidiTab Gen.C17_VSTab
-  Model.C17_Spelling Model.C17_Chroma Model.C17_Voices Model.C17_Contig Model.C17_Key Model.C17_KeyApi Model.C17_Midi
-  Proofs.C17_lib Proofs.C17_Spelling Proofs.C17_Chroma Proofs.C17_Voices Proofs.C17_VoicesTotal Proofs.C17_Contig Proofs.C17_Key Proofs.C17_KeyApi Proofs.C17_Midi.
+  Model.C17_Spelling Model.C17_Chroma Model.C17_Voices Model.C17_Contig Model.C17_Key Model.C17_KeyApi Model.C17_Midi Model.C17_History
+  Proofs.C17_lib Proofs.C17_Spelling Proofs.C17_Chroma Proofs.C17_Voices Proofs.C17_VoicesTotal Proofs.C17_Contig Proofs.C17_Key Proofs.C17_KeyApi Proofs.C17_Midi Proofs.C17_History.
 From Coq Require Import Sorting.Permutation.
 #[local] Open Scope Z_scope.
 
@@ -94,6 +94,66 @@ Theorem ps13_order_independent : forall kpre kpost rows rows',
   forall r s s', In (r, s) (spell_tab kpre kpost rows) -> In (r, s') (spell_tab kpre kpost rows') -> s = s'.
 Proof. exact ps13_order_independent_lemma. Qed.
 Print Assumptions ps13_order_independent.
+
+(* ---- rows that are already sorted.  ps13 on the rows as they come (no sort: spell_as_given) is the table when the
+   rows are in the full canonical (onset, pitch, duration) order ... *)
+Theorem ps13_sorted_input_needs_no_sort : forall kpre kpost rows,
+  row_sorted rows = true -> spell_as_given kpre kpost rows = spell_tab kpre kpost rows.
+Proof. exact spell_as_given_on_sorted. Qed.
+Print Assumptions ps13_sorted_input_needs_no_sort.
+
+(* ... so a fast path that skips the sort for arrays sorted on ALL THREE keys changes nothing, for any array *)
+Theorem ps13_fastpath_on_three_keys_is_harmless : forall kpre kpost rows,
+  spell_tab_presorted3 kpre kpost rows = spell_tab kpre kpost rows.
+Proof. exact presorted3_harmless. Qed.
+Print Assumptions ps13_fastpath_on_three_keys_is_harmless.
+
+(* ... while one that looks at (onset, pitch) only is refuted: two orders of the same 19 pairwise different notes, both
+   sorted by (onset, pitch), differing in the order of one unison (an eighth and a half note B4 as 16th/17th note); the
+   eighth note is spelled B4 in one and Cb5 in the other.  The duration key carries ps13_order_independent. *)
+Theorem ps13_fastpath_on_two_keys_refuted :
+  Permutation fp_rows_a fp_rows_b /\ NoDup fp_rows_a /\ op_sorted fp_rows_a = true /\ op_sorted fp_rows_b = true /\
+  exists r s s', In (r, s) (spell_tab_presorted 10 40 fp_rows_a) /\ In (r, s') (spell_tab_presorted 10 40 fp_rows_b) /\ s <> s'.
+Proof. exact presorted_fastpath_refuted_lemma. Qed.
+Print Assumptions ps13_fastpath_on_two_keys_refuted.
+
+(* ---- histories of calls (Model.C17_History: the caller's array changes -- HSet -- and is asked about -- HCall --
+   again and again).  For EVERY stateless implementation f, every history, every initial content: the k-th step, if it
+   is a call with options q, is answered by f q on the content the array has at that moment *)
+Theorem history_call_answers_current_state : forall (Arr Opt Ans : Type) (f : Opt -> Arr -> Ans) (h : list (@hstep Arr Opt)) st k q,
+  nth_error h k = Some (HCall q) ->
+  nth_error (hrun f st h) (ncalls (firstn k h)) = Some (f q (hstate st (firstn k h))).
+Proof. exact history_answer_lemma. Qed.
+Print Assumptions history_call_answers_current_state.
+
+(* for estimate_spelling: the table of the rows the array holds when it is asked *)
+Theorem spelling_history_answers_current_rows : forall (h : list (@hstep (list row) (nat * nat))) st k kpre kpost,
+  nth_error h k = Some (HCall (kpre, kpost)) ->
+  nth_error (hrun spell_q st h) (ncalls (firstn k h)) = Some (spell_tab kpre kpost (hstate st (firstn k h))).
+Proof. exact spelling_history_lemma. Qed.
+Print Assumptions spelling_history_answers_current_rows.
+
+(* an implementation that keeps a memory of its own from call to call but whose answers do not depend on it is the
+   stateless one on every history *)
+Theorem memory_oblivious_implementation_is_stateless : forall (Arr Opt Ans Mem : Type) (f : Opt -> Arr -> Ans) (g : Opt -> Arr -> Mem -> Ans * Mem),
+  (forall q s m, fst (g q s m) = f q s) -> forall (h : list (@hstep Arr Opt)) m st, hrun_m g m st h = hrun f st h.
+Proof. exact oblivious_memory_lemma. Qed.
+Print Assumptions memory_oblivious_implementation_is_stateless.
+
+(* a memo keyed by the LENGTH of the array is not: asked about C4, then -- the note changed in place to C#4 -- asked
+   again, it answers C4 again; the stateless machine answers the table of the current row *)
+Theorem length_keyed_memo_refuted :
+  hrun_m spell_memo_len [] [(0, 60, 1)] memo_history <> hrun spell_q [(0, 60, 1)] memo_history /\
+  nth_error (hrun spell_q [(0, 60, 1)] memo_history) 1 = Some (spell_tab_v 10 40 [(0, 61, 1)]).
+Proof. exact length_keyed_memo_refuted_lemma. Qed.
+Print Assumptions length_keyed_memo_refuted.
+
+(* the checker of the history correspondence evaluates (C4; then C#4 F#4 asked twice, the second time with K_pre 0, K_post 1) *)
+Theorem history_check_example :
+  history_check ([(0, 60, 1)], [HCall (10%nat, 40%nat); HSet [(0, 61, 1); (1, 66, 1)]; HCall (10%nat, 40%nat); HCall (0%nat, 1%nat)],
+                 [[("C"%string, 0, 4)]; [("C"%string, 1, 4); ("F"%string, 1, 4)]; [("C"%string, 1, 4); ("F"%string, 1, 4)]]) = true.
+Proof. exact history_check_example_lemma. Qed.
+Print Assumptions history_check_example.
 
 (* ---- the chroma context windows as the code keeps them (compute_chroma_vector_array: one running
    vector of twelve counts, +1 at chroma[i + K_post - 1], -1 at chroma[i - K_pre - 1], a copy per note) *)
